@@ -724,7 +724,7 @@ func main() {
 	e := &explorer{r: r, pools: map[int]*mc.Pool{}, horizon: 15 * time.Minute}
 	nw := mc.NWorkers()
 	for k := 1; k <= 3; k++ {
-		e.pools[k] = mc.NewPool(nw, []string{fmt.Sprintf("VERIF_MAPCTL=%d", k), "GOMAXPROCS=1"})
+		e.pools[k] = mc.NewPool(nw, []string{fmt.Sprintf("VERIF_MAPCTL=%d", k), "GOMAXPROCS=1", "GOGC=50"})
 	}
 	e.pools[0] = mc.NewPool(len(corpus), []string{"VERIF_MAPCTL=", "GOMAXPROCS=2"})
 	e.stock2 = mc.NewPool(len(corpus), []string{"VERIF_MAPCTL=", "GOMAXPROCS=2"})
